@@ -149,6 +149,12 @@ func (g *Gen) loopEffects(li loopInfo, h *ssa.BasicBlock) loopEffects {
 						continue
 					}
 					callee := s.Call.StaticCallee()
+					if callee != nil && callee.Signature.Recv() != nil && isBufPtr(callee.Signature.Recv().Type()) {
+						le.elems = true
+						g.bufLenArr(nil, true)
+						le.fields[bufLenKey] = true
+						continue
+					}
 					cc := g.contractFor(&s.Call)
 					if cc == nil && callee != nil && g.canInline(callee) && depth < 3 {
 						scanFn(callee, nil, depth+1)
@@ -373,6 +379,9 @@ func (g *Gen) execFunc(fn *ssa.Function, st *State, top bool, start *ssa.BasicBl
 			for _, a := range le.cells {
 				if _, ok := cur.cells[a]; ok {
 					el := a.Type().(*types.Pointer).Elem()
+					if _, isArr := el.Underlying().(*types.Array); isArr {
+						continue // the cell keeps its backing store; the elements are havocked through Hs
+					}
 					cur.cells[a] = g.symFor(el, a.Comment+"_h", cur)
 				}
 			}
